@@ -3,6 +3,7 @@ Tie: translator (Gen/Quant.v from result_quantification_constraint.py) + exhaust
 hand-written counting loop (Eql/Quant.v) with an(...)/the(...) through the public API."""
 from __future__ import annotations
 
+import json
 from typing import Any, List
 
 from . import core
@@ -154,6 +155,57 @@ def run_reeval(descr) -> Any:
     return [rows, exn]
 
 
+def run_nested_scenario() -> Any:
+    """a quantified sub-query over a domain-less variable, nested in an outer query that is evaluated AGAIN after the data
+    changed: the(entity(w)) with w = let(W, None) must see the instances that exist at each evaluation (seeded C09-H: the
+    memory of the nested query's variable was not reset).  Runs in a subprocess (it creates Symbol instances).
+    Returns the list of outcomes of the successive evaluations."""
+    import subprocess
+    code = r"""
+import json
+from dataclasses import dataclass
+from krrood.entity_query_language.entity import let, entity, Symbol
+from krrood.entity_query_language.quantify_entity import an, the
+from krrood.entity_query_language import result_quantification_constraint as rq
+
+@dataclass(eq=False)
+class W(Symbol):
+    v: int
+
+out = []
+def ev(q):
+    try:
+        return sorted(int(r) for r in q.evaluate())
+    except Exception as e:
+        return type(e).__name__
+
+for inner_kind in ("the", "atmost1"):
+    keep = []
+    w = let(W, None)
+    inner = the(entity(w)) if inner_kind == "the" else an(entity(w), quantification=rq.AtMost(1))
+    x = let(int, [1, 2, 3], name="x")
+    outer = an(entity(x, x == inner.v))
+    res = [ev(outer)]            # no W exists
+    keep.append(W(2)); res.append(ev(outer))      # exactly one
+    keep.append(W(3)); res.append(ev(outer))      # two: the inner constraint is violated
+    res.append(ev(outer))                         # and stays violated
+    out.append(res)
+    del keep
+    import gc; gc.collect()
+print(json.dumps(out))
+"""
+    r = subprocess.run([core.PY, "-c", code], env=core.IMPL_ENV, stdout=subprocess.PIPE, stderr=subprocess.PIPE, text=True,
+                       timeout=300, cwd=str(core.VERIF))
+    last = [l for l in r.stdout.strip().splitlines() if l.strip()]
+    if r.returncode != 0 or not last:
+        return ["crash", (r.stderr.strip().splitlines() or ["?"])[-1][:200]]
+    return json.loads(last[-1])
+
+
+NESTED_EXPECTED = [["NoSolutionFound", [2], "MultipleSolutionFound", "MultipleSolutionFound"],
+                   [[], [2], "GreaterThanExpectedNumberOfSolutions", "GreaterThanExpectedNumberOfSolutions"]]
+
+
 def _h(name: str) -> int:
     return sum(ord(c) for c in name)
 
@@ -249,4 +301,15 @@ def run(tier: str, seed: int, replay=None) -> int:
         rep.violation({"kind": "counterexample", "case": c.descr, "impl": c.impl, "spec": spec,
                        "python": c.snippet,
                        "explanation": "outcome encoding: an -> [rows yielded, exception id 0 none/3 Greater/4 Less] or [-1, ctor exception 1 Negative/2 Consistency]; the -> [0,value] | [5] NoSolutionFound | [6] MultipleSolutionFound"})
+    if replay is None:
+        got = run_nested_scenario()
+        rep.count("nested-quantified-subquery", True)
+        ok = got == NESTED_EXPECTED
+        rep.extra["nested_subquery_scenario"] = {"got": got, "expected": NESTED_EXPECTED}
+        if not ok:
+            rep.violation({"kind": "counterexample", "case": "nested quantified sub-query over a domain-less variable, outer query "
+                           "evaluated with 0, 1, 2, 2 instances of W existing", "impl": got, "spec": NESTED_EXPECTED,
+                           "python": "from harness import c09; print(c09.run_nested_scenario())",
+                           "explanation": "per inner kind (the / an with AtMost(1)): the outcome of each successive evaluation of the SAME "
+                                          "outer query object; a quantifier must see the true number of solutions at every evaluation"})
     return rep.finish()
